@@ -101,6 +101,9 @@ def events(seed):
     E["lobpcg(n=64,block=4,key=7)"] = lambda: lobpcg(cola.PSD(ops.Dense(S64.copy())), max_iters=4, key=7)
     E["eig(LOBPCG(),n=64)"] = lambda: L.eig(cola.PSD(ops.Dense(S64.copy())), 2, "LM", LOBPCG(max_iters=4))
     E["eig(LOBPCG())"] = lambda: L.eig(psd(), 2, "LM", LOBPCG(max_iters=3))
+    from cola.linalg.preconditioning.preconditioners import AdaNysPrecond, select_rank_adaptively
+    E["AdaNysPrecond"] = lambda: AdaNysPrecond(psd(), rank=2, bounds=(0.1, 1.0, 10.0))
+    E["select_rank_adaptively"] = lambda: select_rank_adaptively(psd(), 1, 4, tol=1e-3)
     E["inv(CG,Nystrom)@b"] = lambda: L.inv(psd(), L.CG(tol=1e-8, max_iters=30, P=NystromPrecond(psd(), rank=2, key=3))) @ np.ones(6)
     E["logdet(Lanczos,Hutch)"] = lambda: L.logdet(psd(), L.Lanczos(max_iters=6, tol=1e-10), L.Hutch(tol=0.5, max_iters=2, key=1))
     U = {"user:seed(5)": ("seed", 5), "user:seed(11)": ("seed", 11), "user:randn(3)": ("randn", 3), "user:normal(2)": ("normal", 2)}
